@@ -16,6 +16,7 @@ import BB.Proofs.ForgeSeq
 import BB.Proofs.G4Seq
 import BB.Proofs.G4Frame
 import BB.Proofs.G4Schema
+import BB.Proofs.G4Example
 
 namespace BB.C18
 open BB BB.Sequence
@@ -505,22 +506,7 @@ theorem empty_raw_nonempty : Schema.RawNonempty {} := by
 /-! ### non-vacuity: a sequence holding an element and a two-position subsequence; a blueprint
     channel with flags and a delay of two samples, a raw-array channel with a filter -/
 
-def exBP : BP :=
-  { segs := [ { name := "ramp", fn := Fn.rampFn, args := [.num 0, .num 1], dur := .num 1 } ], SR := .num 10 }
-
-def exEl : Element :=
-  { chans := [(.int 1, { data := .bp exBP, flags := some [1, 0, 0, 1] }),
-              (.str "A", { data := .arr [("wfm", List.replicate 10 0)] (.num 10) })] }
-
-def exSub : SubSeq :=
-  { data := [(1, exEl), (2, exEl)], sequencing := [(1, ⟨0, 2, 0, 0, 0⟩), (2, ⟨0, 4, 0, 0, 1⟩)],
-    awgspecs := [("SR", .val (.num 10))] }
-
-def exSeq : Sequence :=
-  { data := [(1, .el exEl), (2, .sub exSub)],
-    sequencing := [(1, ⟨0, 1, 0, 0, 0⟩), (2, ⟨0, 3, 0, 0, 1⟩)],
-    awgspecs := [("SR", .val (.num 10)), ("channel1_delay", .val (.num (1/5))),
-                 ("channelA_filtercompensation", .filt ⟨"HP", 1, .num 1, .none⟩)] }
+open BB.G4Ex
 
 /-- forging a sequence that contains a subsequence: positions, types, repetitions, number of
     content entries -/
